@@ -13,5 +13,19 @@ claim("C20", "proof",
       "All-paths dataflow over the SSA CFG of the connection loop with a finite span automaton (root none/open/finished x child depth), coinductive balanced-callee summaries for every span-touching function reachable from the loop (deferred FinishSpan applied at rundefers, recursion through composed commands included), and a who-may-call table of every span operation in redis/.... Obligations = every span call site classified, every loop exit and back edge in state (root finished-or-none, depth 0), every span-touching callee balanced; all must be discharged.",
       ASSUME + " tracer.Context implements a stack; no panic unwinds through the loop.",
       "path automaton (typestate) over SSA CFG with callee summaries", "DESIGN.md 4 C20")
+
+claim("C01", "other",
+      "Static rule set: byte<->type tables mutually inverse and total, parser dispatch bytes and serializer prefixes agree with them; every CFG path of Message.RESPBytes / Array.RESPBytes emits the RESP2 production of its type as abstract tokens (decimal length of the very payload written, bulk payload untouched, null/empty bulk distinct, array count = loop bound, one element per iteration); bulk body read by length only (declared+2 bytes, [0:declared] returned, only the CRLF offsets inspected, full-read idiom); constructors build the type they name with round-trip-safe strconv settings. Necessary conditions of the encode/decode round trip for all values.",
+      ASSUME + " Does not decide decode(encode(v)) == v as values.",
+      "emission-grammar check by CFG path enumeration over SSA + constant table evaluation + dataflow idiom recognition", "DESIGN.md 4 C01")
+claim("C02", "other",
+      "Static rule set over every use of the parser's reader: each read is a one-byte read whose byte is used only under its n/err test, or a full-read idiom (io.ReadFull/ReadAtLeast/CopyN, or the accumulate loop with buf[total:], total += n, exit at total == size, short end-of-stream is an error on every path to success); the reader never escapes to a read-ahead consumer; the bulk frame is exactly declared+2 bytes and the line reader consumes exactly one byte after the CR; a stateful parser must be built outside the request loop. Necessary conditions for independence from chunking, for all chunkings at once.",
+      ASSUME + " An io.Reader never returns (0,nil) forever.",
+      "who-may-use table on the reader field + loop idiom recognition + path-sensitive exit facts on SSA", "DESIGN.md 4 C02")
+claim("C06", "other",
+      "Static rule set over the call graph of Parser.Next: wire-declared numbers are bounded by constants before any arithmetic and before sizing any allocation (no int overflow on 64-bit and, thorough tier, 32-bit); a (nil,nil) end-of-stream result is nil-tested before it is stored and a pre-sized element slice is returned only after its filling loop completed; every panic-capable instruction in the scope is discharged by an ABCD-style inequality prover (branch facts, phi edges, caller facts); loops make progress and recursion consumes input first. Decides absence of these panic/absent-element shapes for all inputs.",
+      ASSUME + " strconv.Atoi reports overflow as an error. Memory use below the constant bounds and stack depth are not decided.",
+      "taint-to-sink with dominating constant bounds + ABCD-lite bounds prover on SSA + loop progress", "DESIGN.md 4 C06")
+
 for _k in list(CLAIMS):
     NA.pop(_k, None)
